@@ -242,6 +242,26 @@ func runC22(c *Ctx) {
 			c.Check("ran-not-forwarded", "hasRun-reachable-return@"+name, r, !cls[rcBearing] && !cls[rcUnknown],
 				"a return reachable after the proxy ran the command may carry it to the backend")
 		}
+		// a command whose execution failed on the proxy was executed by the proxy: every command-bearing
+		// return that can be reached after executeCommand lies behind its err == nil edge (the error
+		// branch must not fall through to the forwarding return)
+		for _, r := range returnsOf(cr) {
+			if len(r.Results) != 1 {
+				continue
+			}
+			cls := classifyValue(r.Results[0], 4)
+			if !cls[rcBearing] && !cls[rcUnknown] {
+				continue
+			}
+			for _, ci := range callsIn(cr, func(nm string, cc *ssa.CallCommon) bool { return strings.HasSuffix(nm, "proxy.executeCommand") }) {
+				if !flowsTo(ci, r) {
+					continue
+				}
+				g, n := MustCross(r, func(e Edge, cond ssa.Value, truth bool) bool { return errNilEdge(cond, truth, isExec) })
+				c.Check("error-no-command", "bearing-return-behind-err-nil@"+name, r, g && n > 0,
+					"a command-bearing return is reachable after executeCommand reported an error: the command the proxy tried (and failed) to run is also sent to the backend")
+			}
+		}
 	}
 	c.Floor("denied-no-command", 3)
 	c.Floor("execute-gated", 3)
